@@ -1,6 +1,575 @@
-//! C09 — not implemented yet.
-use crate::core::Ctx;
-use serde_json::Value;
+//! C09 — URL-encoded serialization round-trips and decodes per percent-encoding rules (DESIGN §5 C09).
+//!
+//! Part 1 (values): for every value `v` of every shape's finite domain
+//!     (R) `from_bytes(to_string(v)) == v` whenever `to_string` accepts `v`                     [the statement]
+//!     (E) reference-decode(to_string(v)) == reference pairs of v                               [localises: encoder]
+//!     (D) `from_bytes(reference-encode(reference pairs of v)) == v`                            [statement, 2nd sentence]
+//! Part 2 (texts): every `k=v&...` text of at most N pairs over 4 keys x 9 percent-escaped values is decoded into
+//!     six targets through `from_bytes`, through `Request.query.parse` and through `Request.query.iter`, and
+//!     compared with split-on-&/= + RFC 3986 percent-decoding (harness/src/refmodel/urlenc.rs).
+//! Values are compared through their `Debug` rendering (bitwise for floats except NaN payloads).
+#![allow(dead_code)] // the text targets are only read through their Debug rendering
+use crate::core::{esc, guarded, unesc, Ctx, Tier};
+use crate::exec::{Driver, RunResult};
+use crate::refmodel::urlenc as refenc;
+use crate::sio::ScriptedReader;
+use ohkami::__verif__::RawConn;
+use ohkami_lib::serde_urlencoded::{from_bytes, to_string};
+use serde::de::DeserializeOwned;
+use serde::{Deserialize, Serialize};
+use serde_json::{json, Value};
+use std::collections::BTreeMap;
+use std::fmt::Debug;
 
-pub fn run(ctx: &mut Ctx) { ctx.machinery_error("C09 engine not implemented".into()); }
-pub fn replay(ctx: &mut Ctx, _case: &Value) { ctx.machinery_error("C09 engine not implemented".into()); }
+fn slug(msg: &str) -> String {
+    let head = msg.split(" @ ").next().unwrap_or(msg).lines().next().unwrap_or("");
+    let mut out = String::new();
+    let mut dash = true;
+    for c in head.chars() {
+        let c = if c.is_ascii_digit() { '#' } else { c };
+        if c.is_ascii_alphanumeric() || c == '#' { if c == '#' && out.ends_with('#') { continue } out.push(c); dash = false }
+        else if !dash { out.push('-'); dash = true }
+        if out.len() >= 70 { break }
+    }
+    while out.ends_with('-') { out.pop(); }
+    if out.is_empty() { "unknown".into() } else { out }
+}
+
+/* =====================================================================================================
+   Part 1 — values
+   ===================================================================================================== */
+
+/// plain text of a scalar-like value (what a reference encoder would put after `key=`), None = not scalar-like
+pub trait Plain { fn plain(&self) -> Option<String>; }
+/// the first feature of a value that a known shortcut of the codec is sensitive to (class id component)
+pub trait Hazard { fn hazard(&self) -> Option<&'static str>; }
+
+macro_rules! plain_display { ($($t:ty),*) => { $( impl Plain for $t { fn plain(&self) -> Option<String> { Some(self.to_string()) } }
+    impl Hazard for $t { fn hazard(&self) -> Option<&'static str> { None } } )* } }
+plain_display!(bool, i8, i16, i32, i64, u8, u16, u32, u64);
+impl Plain for f32 { fn plain(&self) -> Option<String> { Some(self.to_string()) } }
+impl Plain for f64 { fn plain(&self) -> Option<String> { Some(self.to_string()) } }
+impl Hazard for f32 { fn hazard(&self) -> Option<&'static str> { (*self as f64).hazard() } }
+impl Hazard for f64 {
+    fn hazard(&self) -> Option<&'static str> {
+        if self.is_nan() { Some("float-nan") } else if self.is_infinite() { Some("float-inf") }
+        else if *self == 0.0 && self.is_sign_negative() { Some("float-neg-zero") } else if self.abs() >= 1e30 { Some("float-big") } else { None }
+    }
+}
+impl Plain for char { fn plain(&self) -> Option<String> { Some(self.to_string()) } }
+impl Hazard for char {
+    fn hazard(&self) -> Option<&'static str> {
+        match *self { '&' | '=' => Some("char-delimiter"), '%' => Some("char-percent"), '+' | ',' | '/' | ' ' => Some("char-other-reserved"),
+            c if !c.is_ascii() => Some("char-non-ascii"), _ => None }
+    }
+}
+impl Plain for String { fn plain(&self) -> Option<String> { Some(self.clone()) } }
+impl Hazard for String { fn hazard(&self) -> Option<&'static str> { None } }
+impl Plain for () { fn plain(&self) -> Option<String> { Some(String::new()) } }
+impl Hazard for () { fn hazard(&self) -> Option<&'static str> { None } }
+impl<T: Plain> Plain for Option<T> { fn plain(&self) -> Option<String> { match self { None => Some(String::new()), Some(t) => t.plain() } } }
+impl<T: Hazard + Serialize> Hazard for Option<T> {
+    fn hazard(&self) -> Option<&'static str> {
+        match self {
+            None => None,
+            // what matters is whether the inner value is written as the empty section
+            Some(t) => if matches!(serde_json::to_value(t), Ok(Value::String(ref s)) if s.is_empty()) || matches!(serde_json::to_value(t), Ok(Value::Array(ref a)) if a.is_empty()) { Some("some-empty") } else { t.hazard() },
+        }
+    }
+}
+
+#[derive(Serialize, Deserialize, Debug, Clone, Copy, PartialEq)]
+pub enum E { A, Bb, #[serde(rename = "x-y")] Xy }
+impl Plain for E { fn plain(&self) -> Option<String> { Some(match self { E::A => "A", E::Bb => "Bb", E::Xy => "x-y" }.into()) } }
+impl Hazard for E { fn hazard(&self) -> Option<&'static str> { if matches!(self, E::Xy) { Some("enum-variant-needs-escape") } else { None } } }
+
+#[derive(Serialize, Deserialize, Debug, Clone, PartialEq)]
+pub struct Nt<T>(T);
+impl<T: Plain> Plain for Nt<T> { fn plain(&self) -> Option<String> { self.0.plain() } }
+impl<T: Hazard> Hazard for Nt<T> { fn hazard(&self) -> Option<&'static str> { self.0.hazard() } }
+
+impl<T: Plain> Plain for Vec<T> { fn plain(&self) -> Option<String> { None } }
+impl<T: Plain> Hazard for Vec<T> {
+    fn hazard(&self) -> Option<&'static str> {
+        if self.len() >= 2 { return Some("seq-len2+") }
+        if self.len() == 1 {
+            let p = self[0].plain().unwrap_or_default();
+            if std::any::type_name::<T>() != std::any::type_name::<String>() { return Some("seq-len1-non-string") }
+            if p.is_empty() { return Some("seq-len1-empty-element") }
+            if refenc::pct_encode(p.as_bytes()) != p { return Some("seq-len1-escaped-element") }
+        }
+        None
+    }
+}
+impl<A: Plain, B: Plain> Plain for (A, B) { fn plain(&self) -> Option<String> { None } }
+impl<A: Plain, B: Plain> Hazard for (A, B) { fn hazard(&self) -> Option<&'static str> { Some("tuple") } }
+
+#[derive(Serialize, Deserialize, Debug, Clone, PartialEq)] pub struct F1<T> { a: T }
+#[derive(Serialize, Deserialize, Debug, Clone, PartialEq)] pub struct F2<A, B> { a: A, b: B }
+#[derive(Serialize, Deserialize, Debug, Clone, PartialEq)] pub struct F3<A, B, C> { a: A, b: B, c: C }
+
+/// a top-level value: reference pairs (None = not expressible as plain pairs) and hazard
+pub trait Top: Serialize + DeserializeOwned + Debug {
+    fn ref_pairs(&self) -> Option<Vec<(String, String)>>;
+    /// the hazards of the fields, in field order (joined with `+` in the class id)
+    fn top_hazard(&self) -> Vec<&'static str>;
+    fn trivial(&self) -> bool { false }
+}
+impl<T: Plain + Hazard + Serialize + DeserializeOwned + Debug> Top for F1<T> {
+    fn ref_pairs(&self) -> Option<Vec<(String, String)>> { Some(vec![("a".into(), self.a.plain()?)]) }
+    fn top_hazard(&self) -> Vec<&'static str> { self.a.hazard().into_iter().collect() }
+}
+impl<A: Plain + Hazard + Serialize + DeserializeOwned + Debug, B: Plain + Hazard + Serialize + DeserializeOwned + Debug> Top for F2<A, B> {
+    fn ref_pairs(&self) -> Option<Vec<(String, String)>> { Some(vec![("a".into(), self.a.plain()?), ("b".into(), self.b.plain()?)]) }
+    fn top_hazard(&self) -> Vec<&'static str> { self.a.hazard().into_iter().chain(self.b.hazard()).collect() }
+}
+impl<A: Plain + Hazard + Serialize + DeserializeOwned + Debug, B: Plain + Hazard + Serialize + DeserializeOwned + Debug, C: Plain + Hazard + Serialize + DeserializeOwned + Debug> Top for F3<A, B, C> {
+    fn ref_pairs(&self) -> Option<Vec<(String, String)>> { Some(vec![("a".into(), self.a.plain()?), ("b".into(), self.b.plain()?), ("c".into(), self.c.plain()?)]) }
+    fn top_hazard(&self) -> Vec<&'static str> { self.a.hazard().into_iter().chain(self.b.hazard()).chain(self.c.hazard()).collect() }
+}
+impl Top for BTreeMap<String, String> {
+    fn ref_pairs(&self) -> Option<Vec<(String, String)>> { Some(self.iter().map(|(k, v)| (k.clone(), v.clone())).collect()) }
+    fn top_hazard(&self) -> Vec<&'static str> { if self.contains_key("") { vec!["map-empty-key"] } else { vec![] } }
+    fn trivial(&self) -> bool { self.is_empty() }
+}
+
+/* ---- finite domains ---- */
+
+const CHARS: [char; 10] = ['a', '&', '=', '%', '+', ' ', ',', '/', '\u{e9}', '\u{1F600}'];
+
+/// all strings of length 0..=max over CHARS, shortest first (so a longer bound extends the sequence)
+fn strings(max: usize) -> Vec<String> {
+    let mut out = vec![String::new()];
+    let mut prev = vec![String::new()];
+    for _ in 0..max {
+        let mut next = Vec::with_capacity(prev.len() * CHARS.len());
+        for p in &prev { for c in CHARS { let mut s = p.clone(); s.push(c); next.push(s); } }
+        out.extend(next.iter().cloned());
+        prev = next;
+    }
+    out
+}
+fn opt<T: Clone>(v: &[T]) -> Vec<Option<T>> { std::iter::once(None).chain(v.iter().cloned().map(Some)).collect() }
+fn seqs<T: Clone>(elems: &[T], max_len: usize) -> Vec<Vec<T>> {
+    let mut out = vec![vec![]];
+    let mut prev: Vec<Vec<T>> = vec![vec![]];
+    for _ in 0..max_len {
+        let mut next = Vec::new();
+        for p in &prev { for e in elems { let mut s = p.clone(); s.push(e.clone()); next.push(s); } }
+        out.extend(next.iter().cloned());
+        prev = next;
+    }
+    out
+}
+fn f64s() -> Vec<f64> { vec![0.0, -0.0, 1.5, 1e300, f64::MAX, f64::INFINITY, f64::NAN, f64::MIN_POSITIVE, -2.5e-8] }
+fn f32s() -> Vec<f32> { vec![0.0, -0.0, 1.5, 1e30, f32::MAX, f32::INFINITY, f32::NAN, f32::MIN_POSITIVE, 0.1] }
+macro_rules! ints { ($t:ty) => { { let mut v: Vec<$t> = vec![<$t>::MIN, 0, 1, <$t>::MAX]; if <$t>::MIN != 0 { v.push((0 as $t).wrapping_sub(1)); } v.sort(); v.dedup(); v } } }
+
+/* ---- the check on one value ---- */
+
+fn dbg<T: Debug>(t: &T) -> String { format!("{t:?}") }
+
+#[derive(PartialEq)]
+enum Got { Same, Err(String), Wrong(String), Panic(String) }
+
+fn decode_and_compare<T: Top>(text: &str, want: &str) -> Got {
+    match guarded(|| from_bytes::<T>(text.as_bytes())) {
+        Err(p) => Got::Panic(p),
+        Ok(Err(e)) => Got::Err(e.to_string()),
+        Ok(Ok(w)) => { let d = dbg(&w); if d == want { Got::Same } else { Got::Wrong(d) } }
+    }
+}
+
+/// returns true if the value was a violation
+fn check_value<T: Top>(ctx: &mut Ctx, shape: &'static str, tier: Tier, index: usize, v: &T) {
+    let want = dbg(v);
+    let hazard = { let mut h = v.top_hazard(); h.dedup(); if h.is_empty() { "plain".to_string() } else { h.join("+") } };
+    let hazard = hazard.as_str();
+    let witness = |extra: Value| {
+        let mut w = json!({"part": "roundtrip", "shape": shape, "tier": if tier == Tier::Quick { "quick" } else { "thorough" }, "index": index, "value": want});
+        for (k, x) in extra.as_object().unwrap() { w[k] = x.clone(); }
+        w
+    };
+    let text = match guarded(|| to_string(v)) {
+        Err(p) => { ctx.violation(&format!("C09/roundtrip/{shape}/encode-panic:{}/{hazard}", slug(&p)), true, || witness(json!({"observed": format!("to_string panicked: {p}")}))); return }
+        Ok(Err(_)) => { ctx.pass(&format!("serializer-rejects:{shape}"), false, false); return } // precondition of the statement not met
+        Ok(Ok(t)) => t,
+    };
+    let pairs = v.ref_pairs();
+    // (E) crate encoder -> reference decoder
+    //     (a raw `=` inside a value is also the encoder's fault: delimiters that are data must be escaped)
+    let enc_ok: Option<bool> = pairs.as_ref().map(|p| refenc::decode_pairs(text.as_bytes()).ok().as_ref() == Some(p)
+        && refenc::split_pairs(text.as_bytes()).iter().all(|(_, v)| v.map_or(false, |v| !v.contains(&b'='))));
+    // (D) reference encoder -> crate decoder
+    let ref_text = pairs.as_ref().map(|p| refenc::encode_pairs(p));
+    let dec_got: Option<Got> = ref_text.as_ref().map(|t| decode_and_compare::<T>(t, &want));
+    // (R) the round trip
+    let rt = decode_and_compare::<T>(&text, &want);
+    let escaped = text.contains('%');
+    let nontrivial = !v.trivial();
+    if rt == Got::Same {
+        match (&dec_got, enc_ok) {
+            (Some(g), _) if *g != Got::Same => {
+                let (sym, obs) = match g { Got::Err(e) => ("refused-should-accept".to_string(), e.clone()), Got::Wrong(d) => ("wrong-value".to_string(), d.clone()),
+                    Got::Panic(p) => (format!("panic:{}", slug(p)), p.clone()), Got::Same => unreachable!() };
+                ctx.violation(&format!("C09/reference-encoded-text/{shape}/{sym}/{hazard}"), nontrivial,
+                    || witness(json!({"text": ref_text, "observed": obs, "note": "round trip through the crate's own encoder holds; the RFC 3986 encoding of the same pairs does not decode to the value"})));
+            }
+            (_, Some(false)) => ctx.ambiguous(&format!("encoder-output-not-rfc3986-but-round-trips:{shape}")),
+            _ => {
+                ctx.pass(&format!("round-trip:{shape}:{}", if hazard == "plain" { "plain" } else { "hazard" }), nontrivial, escaped || hazard != "plain");
+                if escaped && index % 97 == 5 { ctx.sample(|| json!({"shape": shape, "value": want, "text": text, "observed": "decodes back to an equal value"})); }
+            }
+        }
+        return;
+    }
+    let side = match (enc_ok, dec_got.as_ref().map(|g| *g == Got::Same)) {
+        (Some(false), Some(true)) => "encoder",
+        (Some(true), Some(false)) => "decoder",
+        (Some(false), Some(false)) => "both",
+        (Some(true), Some(true)) => "neither-alone",
+        _ => "unlocalised",
+    };
+    let (sym, obs) = match &rt { Got::Err(e) => ("decode-error".to_string(), e.clone()), Got::Wrong(d) => ("wrong-value".to_string(), d.clone()),
+        Got::Panic(p) => (format!("decode-panic:{}", slug(p)), p.clone()), Got::Same => unreachable!() };
+    ctx.violation(&format!("C09/roundtrip/{shape}/{sym}@{side}/{hazard}"), nontrivial, || witness(json!({"text": text, "observed": obs, "fault_side": side})));
+}
+
+/// A shape = a name and its domain for a tier; `visit` calls the checker for every (index, value) — or only `only`.
+macro_rules! shape {
+    ($ctx:expr, $tier:expr, $only:expr, $name:literal, $domain:expr) => {{
+        let only: Option<(&str, usize)> = $only;
+        if only.map_or(true, |(n, _)| n == $name) {
+            let run_it = match only { Some(_) => true, None => $ctx.mine() };
+            if run_it {
+                let domain = $domain;
+                for (i, v) in domain.iter().enumerate() {
+                    if let Some((_, idx)) = only { if idx != i { continue } }
+                    check_value($ctx, $name, $tier, i, v);
+                }
+                if let Some((_, idx)) = only { if idx >= domain.len() { $ctx.machinery_error(format!("replay: index {idx} outside the domain of {}", $name)); } }
+            }
+        }
+    }};
+}
+
+fn values(ctx: &mut Ctx, tier: Tier, only: Option<(&str, usize)>) {
+    let q = tier == Tier::Quick;
+    let s1 = strings(1); let s2 = strings(2); let s3 = strings(3);
+    let sfull = if q { s3.clone() } else { strings(4) };
+    shape!(ctx, tier, only, "bool", [false, true].map(|a| F1 { a }));
+    shape!(ctx, tier, only, "i8", ints!(i8).into_iter().map(|a| F1 { a }).collect::<Vec<_>>());
+    shape!(ctx, tier, only, "i16", ints!(i16).into_iter().map(|a| F1 { a }).collect::<Vec<_>>());
+    shape!(ctx, tier, only, "i32", ints!(i32).into_iter().map(|a| F1 { a }).collect::<Vec<_>>());
+    shape!(ctx, tier, only, "i64", ints!(i64).into_iter().map(|a| F1 { a }).collect::<Vec<_>>());
+    shape!(ctx, tier, only, "u8", ints!(u8).into_iter().map(|a| F1 { a }).collect::<Vec<_>>());
+    shape!(ctx, tier, only, "u16", ints!(u16).into_iter().map(|a| F1 { a }).collect::<Vec<_>>());
+    shape!(ctx, tier, only, "u32", ints!(u32).into_iter().map(|a| F1 { a }).collect::<Vec<_>>());
+    shape!(ctx, tier, only, "u64", ints!(u64).into_iter().map(|a| F1 { a }).collect::<Vec<_>>());
+    shape!(ctx, tier, only, "f32", f32s().into_iter().map(|a| F1 { a }).collect::<Vec<_>>());
+    shape!(ctx, tier, only, "f64", f64s().into_iter().map(|a| F1 { a }).collect::<Vec<_>>());
+    shape!(ctx, tier, only, "char", CHARS.map(|a| F1 { a }));
+    shape!(ctx, tier, only, "String", sfull.iter().cloned().map(|a| F1 { a }).collect::<Vec<_>>());
+    shape!(ctx, tier, only, "Option<String>", opt(&s3).into_iter().map(|a| F1 { a }).collect::<Vec<_>>());
+    shape!(ctx, tier, only, "Option<i32>", opt(&ints!(i32)).into_iter().map(|a| F1 { a }).collect::<Vec<_>>());
+    shape!(ctx, tier, only, "Option<char>", opt(&CHARS).into_iter().map(|a| F1 { a }).collect::<Vec<_>>());
+    shape!(ctx, tier, only, "Option<bool>", opt(&[false, true]).into_iter().map(|a| F1 { a }).collect::<Vec<_>>());
+    shape!(ctx, tier, only, "unit", [F1 { a: () }]);
+    shape!(ctx, tier, only, "unit-enum", [E::A, E::Bb, E::Xy].map(|a| F1 { a }));
+    shape!(ctx, tier, only, "Option<unit-enum>", opt(&[E::A, E::Bb, E::Xy]).into_iter().map(|a| F1 { a }).collect::<Vec<_>>());
+    shape!(ctx, tier, only, "Newtype<String>", s2.iter().cloned().map(|a| F1 { a: Nt(a) }).collect::<Vec<_>>());
+    shape!(ctx, tier, only, "Newtype<i64>", ints!(i64).into_iter().map(|a| F1 { a: Nt(a) }).collect::<Vec<_>>());
+    shape!(ctx, tier, only, "Vec<String>", seqs(&s1, 3).into_iter().map(|a| F1 { a }).collect::<Vec<_>>());
+    shape!(ctx, tier, only, "Vec<i32>", seqs(&ints!(i32), 3).into_iter().map(|a| F1 { a }).collect::<Vec<_>>());
+    shape!(ctx, tier, only, "Option<Vec<String>>", opt(&seqs(&s1, 2)).into_iter().map(|a| F1 { a }).collect::<Vec<_>>());
+    shape!(ctx, tier, only, "(i32,String)", { let mut d = vec![]; for a in ints!(i32) { for b in &s1 { d.push(F1 { a: (a, b.clone()) }); } } d });
+    shape!(ctx, tier, only, "{String,i32}", { let mut d = vec![]; for a in &s2 { for b in ints!(i32) { d.push(F2 { a: a.clone(), b }); } } d });
+    shape!(ctx, tier, only, "{Option<String>,String}", { let mut d = vec![]; for a in opt(if q { &s2 } else { &s3 }) { for b in &s2 { d.push(F2 { a: a.clone(), b: b.clone() }); } } d });
+    shape!(ctx, tier, only, "{bool,char,Option<u8>}", { let mut d = vec![]; for a in [false, true] { for b in CHARS { for c in opt(&ints!(u8)) { d.push(F3 { a, b, c }); } } } d });
+    shape!(ctx, tier, only, "{String,Vec<String>,unit-enum}", { let mut d = vec![]; for a in &s1 { for b in seqs(&s1, 2) { for c in [E::A, E::Bb, E::Xy] { d.push(F3 { a: a.clone(), b: b.clone(), c }); } } } d });
+    shape!(ctx, tier, only, "{f64,Option<i32>,String}", { let mut d = vec![]; for a in f64s() { for b in opt(&ints!(i32)) { for c in &s1 { d.push(F3 { a, b, c: c.clone() }); } } } d });
+    shape!(ctx, tier, only, "map<String,String>-of-0-or-1", {
+        let mut d: Vec<BTreeMap<String, String>> = vec![BTreeMap::new()];
+        for k in &s2 { for v in &s2 { d.push([(k.clone(), v.clone())].into_iter().collect()); } }
+        d
+    });
+    shape!(ctx, tier, only, "map<String,String>-of-2", {
+        let mut d: Vec<BTreeMap<String, String>> = vec![];
+        for (i, k1) in s1.iter().enumerate() { for k2 in &s1[i + 1..] { for v1 in &s1 { for v2 in &s1 {
+            d.push([(k1.clone(), v1.clone()), (k2.clone(), v2.clone())].into_iter().collect());
+        } } } }
+        d
+    });
+}
+
+/* =====================================================================================================
+   Part 2 — texts
+   ===================================================================================================== */
+
+const KEYS: [&str; 4] = ["a", "b", "z", "%61"];
+// DESIGN's eight values plus one escape written with a lower-case hex digit (RFC 3986 2.1: both cases are equivalent)
+const VALUES: [&str; 9] = ["", "a", "%41", "%4", "%zz", "+", "%E3%81%82", "a%26b", "%4a"];
+
+pub enum Expect<T> { Value(T), Err(&'static str), Ambiguous(&'static str) }
+
+pub trait TextTarget: DeserializeOwned + Debug {
+    const NAME: &'static str;
+    /// field names in declaration order (empty = a map that takes every key)
+    const FIELDS: &'static [&'static str];
+    fn expect(pairs: &[(String, String)]) -> Expect<Self>;
+}
+
+fn get<'p>(pairs: &'p [(String, String)], key: &str) -> Result<Option<&'p String>, ()> {
+    let mut it = pairs.iter().filter(|(k, _)| k == key);
+    let first = it.next();
+    if it.next().is_some() { return Err(()) }
+    Ok(first.map(|p| &p.1))
+}
+
+#[derive(Deserialize, Debug)] pub struct T1 { a: String }
+#[derive(Deserialize, Debug)] pub struct T2 { a: String, b: String }
+#[derive(Deserialize, Debug)] pub struct T3 { a: String, b: Option<String> }
+#[derive(Deserialize, Debug)] pub struct T4 { b: String, a: String }
+#[derive(Deserialize, Debug)] pub struct T5 { a: Option<String>, b: Option<String> }
+
+impl TextTarget for T1 {
+    const NAME: &'static str = "{a:String}"; const FIELDS: &'static [&'static str] = &["a"];
+    fn expect(p: &[(String, String)]) -> Expect<Self> {
+        match get(p, "a") { Err(()) => Expect::Ambiguous("duplicate-key"), Ok(None) => Expect::Err("missing-field"), Ok(Some(a)) => Expect::Value(T1 { a: a.clone() }) }
+    }
+}
+impl TextTarget for T2 {
+    const NAME: &'static str = "{a:String,b:String}"; const FIELDS: &'static [&'static str] = &["a", "b"];
+    fn expect(p: &[(String, String)]) -> Expect<Self> {
+        match (get(p, "a"), get(p, "b")) {
+            (Err(()), _) | (_, Err(())) => Expect::Ambiguous("duplicate-key"),
+            (Ok(Some(a)), Ok(Some(b))) => Expect::Value(T2 { a: a.clone(), b: b.clone() }),
+            _ => Expect::Err("missing-field"),
+        }
+    }
+}
+impl TextTarget for T4 {
+    const NAME: &'static str = "{b:String,a:String}"; const FIELDS: &'static [&'static str] = &["b", "a"];
+    fn expect(p: &[(String, String)]) -> Expect<Self> {
+        match (get(p, "a"), get(p, "b")) {
+            (Err(()), _) | (_, Err(())) => Expect::Ambiguous("duplicate-key"),
+            (Ok(Some(a)), Ok(Some(b))) => Expect::Value(T4 { a: a.clone(), b: b.clone() }),
+            _ => Expect::Err("missing-field"),
+        }
+    }
+}
+impl TextTarget for T3 {
+    const NAME: &'static str = "{a:String,b:Option<String>}"; const FIELDS: &'static [&'static str] = &["a", "b"];
+    fn expect(p: &[(String, String)]) -> Expect<Self> {
+        match (get(p, "a"), get(p, "b")) {
+            (Err(()), _) | (_, Err(())) => Expect::Ambiguous("duplicate-key"),
+            (Ok(None), _) => Expect::Err("missing-field"),
+            // `b=` into an Option: the pair is (b, ""), whether that is Some("") or None the statement does not say
+            (Ok(Some(_)), Ok(Some(b))) if b.is_empty() => Expect::Ambiguous("empty-value-into-option"),
+            (Ok(Some(a)), Ok(b)) => Expect::Value(T3 { a: a.clone(), b: b.cloned() }),
+        }
+    }
+}
+impl TextTarget for T5 {
+    const NAME: &'static str = "{a:Option<String>,b:Option<String>}"; const FIELDS: &'static [&'static str] = &["a", "b"];
+    fn expect(p: &[(String, String)]) -> Expect<Self> {
+        match (get(p, "a"), get(p, "b")) {
+            (Err(()), _) | (_, Err(())) => Expect::Ambiguous("duplicate-key"),
+            (Ok(a), Ok(b)) => {
+                if a.map_or(false, |s| s.is_empty()) || b.map_or(false, |s| s.is_empty()) { return Expect::Ambiguous("empty-value-into-option") }
+                Expect::Value(T5 { a: a.cloned(), b: b.cloned() })
+            }
+        }
+    }
+}
+impl TextTarget for BTreeMap<String, String> {
+    const NAME: &'static str = "map<String,String>"; const FIELDS: &'static [&'static str] = &[];
+    fn expect(p: &[(String, String)]) -> Expect<Self> {
+        let mut m = BTreeMap::new();
+        for (k, v) in p { if m.insert(k.clone(), v.clone()).is_some() { return Expect::Ambiguous("duplicate-key") } }
+        Expect::Value(m)
+    }
+}
+
+/// the first feature of the text that a shortcut could be sensitive to
+fn text_feature(raw: &[(&[u8], Option<&[u8]>)], fields: &[&str]) -> &'static str {
+    if raw.is_empty() { return "no-pairs" }
+    if raw.iter().any(|(k, _)| k.contains(&b'%')) { return "escaped-key" }
+    let known: Vec<&str> = raw.iter().filter_map(|(k, _)| fields.iter().copied().find(|f| f.as_bytes() == *k)).collect();
+    if !fields.is_empty() {
+        if raw.len() > known.len() {
+            let first_known = raw.iter().position(|(k, _)| fields.iter().any(|f| f.as_bytes() == *k));
+            let first_unknown = raw.iter().position(|(k, _)| !fields.iter().any(|f| f.as_bytes() == *k));
+            return if first_known.map_or(true, |fk| first_unknown.unwrap() < fk) { "unknown-key-first" } else { "unknown-key-later" };
+        }
+        let order: Vec<usize> = known.iter().map(|k| fields.iter().position(|f| f == k).unwrap()).collect();
+        if order.windows(2).any(|w| w[0] > w[1]) { return "not-in-declaration-order" }
+    }
+    let vals: Vec<&[u8]> = raw.iter().map(|(_, v)| v.unwrap_or(b"")).collect();
+    if vals.iter().any(|v| v.windows(3).any(|w| w == b"%26")) { return "escaped-delimiter-in-value" }
+    if vals.iter().any(|v| v.starts_with(b"%E3")) { return "escaped-multibyte-value" }
+    if vals.iter().any(|v| v.contains(&b'%')) { return "escaped-ascii-value" }
+    if vals.iter().any(|v| v.contains(&b'+')) { return "plus-in-value" }
+    if vals.iter().any(|v| v.is_empty()) { return "empty-value" }
+    "plain"
+}
+
+fn read_request(raw: &[u8]) -> Result<Option<RawConn>, String> {
+    guarded(|| {
+        let mut conn = RawConn::init();
+        let mut reader = ScriptedReader::new(vec![raw.to_vec()], false);
+        reader.deliver_next();
+        let mut d = Driver::new();
+        let accepted = {
+            let fut = conn.read(&mut reader);
+            let mut fut = std::pin::pin!(fut);
+            matches!(d.run(fut.as_mut(), 1000), RunResult::Ready(Ok(Some(()))))
+        };
+        if accepted { Some(conn) } else { None }
+    })
+}
+
+fn judge<T: TextTarget>(ctx: &mut Ctx, route: &'static str, text: &[u8], feature: &'static str, expect: &Expect<T>, got: Result<Result<T, String>, String>, collision: bool) {
+    let witness = |obs: String, exp: String| json!({"part": "text", "route": route, "target": T::NAME, "text": esc(text), "expected": exp, "observed": obs, "feature": feature});
+    let cls = |sym: &str| format!("C09/{route}/{}/{sym}/{feature}", T::NAME);
+    match (expect, got) {
+        (_, Err(p)) => ctx.violation(&cls(&format!("panic:{}", slug(&p))), true, || witness(format!("panic: {p}"), "no panic".into())),
+        (Expect::Ambiguous(why), _) => ctx.ambiguous(why),
+        (Expect::Err(_), Ok(Err(_))) => ctx.pass(&format!("{route}:missing-field-refused"), true, collision),
+        // a value although a required field is missing: the statement does not say what must happen
+        (Expect::Err(_), Ok(Ok(_))) => ctx.ambiguous("missing-field-but-value"),
+        (Expect::Value(v), Ok(Ok(w))) => {
+            let (dv, dw) = (dbg(v), dbg(&w));
+            if dv == dw { ctx.pass(&format!("{route}:decoded:{feature}"), true, collision) }
+            else { ctx.violation(&cls("wrong-value"), true, || witness(dw, dv)) }
+        }
+        (Expect::Value(v), Ok(Err(e))) => ctx.violation(&cls("refused-should-accept"), true, || witness(format!("Err({e})"), dbg(v))),
+    }
+}
+
+fn check_text_target<T: TextTarget>(ctx: &mut Ctx, text: &[u8], raw: &[(&[u8], Option<&[u8]>)], decoded: &Result<Vec<(String, String)>, refenc::Undefined>, conn: Option<&RawConn>, routes: (bool, bool)) {
+    let feature = text_feature(raw, T::FIELDS);
+    let collision = feature != "plain" && feature != "no-pairs" && feature != "empty-value";
+    let expect: Expect<T> = match decoded {
+        Err(refenc::Undefined::MalformedEscape) => Expect::Ambiguous("malformed-escape"),
+        Err(refenc::Undefined::NotUtf8) => Expect::Ambiguous("escape-not-utf8"),
+        Err(refenc::Undefined::NoEquals) => Expect::Ambiguous("part-without-equals"),
+        Ok(p) => T::expect(p),
+    };
+    if routes.0 {
+        let got = guarded(|| from_bytes::<T>(text).map_err(|e| e.to_string()));
+        judge::<T>(ctx, "text", text, feature, &expect, got, collision);
+    }
+    if let (Some(conn), true) = (conn, routes.1) {
+        let got = guarded(|| conn.request().query.parse::<T>().map_err(|e| e.to_string()));
+        judge::<T>(ctx, "query-parse", text, feature, &expect, got, collision);
+    }
+}
+
+fn check_text(ctx: &mut Ctx, text: &[u8], only_target: Option<&str>, only_route: Option<&str>) {
+    let raw = refenc::split_pairs(text);
+    let decoded = refenc::decode_pairs(text);
+    // the same text as the query string of a real request line
+    let mut req = b"GET /p?".to_vec(); req.extend_from_slice(text); req.extend_from_slice(b" HTTP/1.1\r\n\r\n");
+    let conn = match read_request(&req) {
+        Ok(c) => c,
+        Err(p) => { ctx.violation(&format!("C09/query-iter/request-read/panic:{}/any", slug(&p)), true, || json!({"part": "text", "route": "query-iter", "target": "iter", "text": esc(text), "observed": p})); None }
+    };
+    let want = |name: &str, route: &str| only_target.map_or(true, |t| t == name) && only_route.map_or(true, |r| r == route);
+    macro_rules! t { ($ty:ty) => { {
+        let routes = (want(<$ty>::NAME, "text"), want(<$ty>::NAME, "query-parse"));
+        if routes.0 || routes.1 { check_text_target::<$ty>(ctx, text, &raw, &decoded, conn.as_ref(), routes) }
+    } } }
+    t!(T1); t!(T2); t!(T3); t!(T4); t!(T5); t!(BTreeMap<String, String>);
+    // Request.query.iter()
+    if want("iter", "query-iter") {
+        let feature = text_feature(&raw, &[]);
+        match (&decoded, &conn) {
+            (_, None) => ctx.ambiguous("request-line-not-accepted"),
+            (Err(_), _) => ctx.ambiguous("malformed-escape"),
+            (Ok(p), Some(conn)) => match guarded(|| conn.request().query.iter().map(|(k, v)| (k.into_owned(), v.into_owned())).collect::<Vec<_>>()) {
+                Err(pn) => ctx.violation(&format!("C09/query-iter/iter/panic:{}/{feature}", slug(&pn)), true, || json!({"part": "text", "route": "query-iter", "target": "iter", "text": esc(text), "observed": pn})),
+                Ok(got) if got == *p => ctx.pass(&format!("query-iter:pairs:{feature}"), !p.is_empty(), feature.starts_with("escaped")),
+                Ok(got) => {
+                    let sym = if got.len() < p.len() { "missing-pair" } else if got.len() > p.len() { "extra-pair" } else { "wrong-value" };
+                    ctx.violation(&format!("C09/query-iter/iter/{sym}/{feature}"), true, || json!({"part": "text", "route": "query-iter", "target": "iter", "text": esc(text), "expected": dbg(p), "observed": dbg(&got), "feature": feature}))
+                }
+            },
+        }
+    }
+}
+
+fn texts(ctx: &mut Ctx, max_pairs: usize) {
+    let pairs: Vec<String> = KEYS.iter().flat_map(|k| VALUES.iter().map(move |v| format!("{k}={v}"))).collect();
+    let n = pairs.len();
+    // unit = (number of pairs, index of the first pair, index of the second pair if any)
+    for len in 0..=max_pairs {
+        let lead = len.min(2);
+        let units = n.pow(lead as u32);
+        for u in 0..units {
+            if ctx.out_of_time() { return }
+            if !ctx.mine() { continue }
+            let rest = len - lead;
+            for r in 0..n.pow(rest as u32) {
+                let mut idx = Vec::with_capacity(len);
+                let mut x = u; let mut leadv = vec![0; lead]; for k in (0..lead).rev() { leadv[k] = x % n; x /= n; }
+                idx.extend(leadv);
+                let mut y = r; let mut restv = vec![0; rest]; for k in (0..rest).rev() { restv[k] = y % n; y /= n; }
+                idx.extend(restv);
+                let text = idx.iter().map(|i| pairs[*i].as_str()).collect::<Vec<_>>().join("&");
+                check_text(ctx, text.as_bytes(), None, None);
+            }
+        }
+    }
+}
+
+/// C09 runs the codec in-process (its subject is correctness, totality is C08's): if a change to the codec makes it
+/// loop or allocate without bound, the worker must die (=> machinery failure, exit 2) instead of hanging the driver.
+fn watchdog(ctx: &Ctx) {
+    unsafe {
+        libc::alarm(ctx.wall_cap_s as u32 + 120);
+        let lim = libc::rlimit { rlim_cur: 4 << 30, rlim_max: 4 << 30 };
+        libc::setrlimit(libc::RLIMIT_AS, &lim);
+    }
+}
+
+pub fn run(ctx: &mut Ctx) {
+    if let Err(e) = refenc::selftest() { ctx.machinery_error(e); return }
+    watchdog(ctx);
+    crate::app::pin_clock();
+    let tier = ctx.tier;
+    values(ctx, tier, None);
+    let max_pairs = if ctx.quick() { 3 } else { 4 };
+    texts(ctx, max_pairs);
+    ctx.sample(|| json!({"part": "text", "text": "b=%E3%81%82&z=+&%61=a%26b", "reference_pairs": dbg(&refenc::decode_pairs(b"b=%E3%81%82&z=+&%61=a%26b"))}));
+    ctx.extra.insert("rule".into(), json!("part 1: one case = one value of a shape's finite domain (full product of the field domains), checked for from_bytes(to_string(v)) == v and against the reference encoder/decoder; non-trivial = every value except the empty map; collision = the encoded text needs an escape or the value carries a known hazard (delimiter char, Some(\"\"), sequence, renamed variant, empty key). part 2: one case = (text of <= N pairs over 4 keys x 9 values, target, route) with route in from_bytes / Request.query.parse / Request.query.iter; collision = escaped key or value, unknown key, or keys not in declaration order. Every case is distinct by construction."));
+    ctx.extra.insert("bounds".into(), json!({
+        "chars": CHARS.iter().map(|c| c.to_string()).collect::<Vec<_>>(), "max_string_len": if ctx.quick() { 3 } else { 4 }, "max_seq_len": 3,
+        "value_shapes": 33, "text_keys": KEYS, "text_values": VALUES, "max_pairs": max_pairs, "text_targets": 6, "routes": ["from_bytes", "Request.query.parse", "Request.query.iter"],
+    }));
+    ctx.extra.insert("distinct_by_construction".into(), json!(true));
+}
+
+pub fn replay(ctx: &mut Ctx, case: &Value) {
+    watchdog(ctx);
+    crate::app::pin_clock();
+    match case["part"].as_str() {
+        Some("roundtrip") => {
+            let tier = if case["tier"].as_str() == Some("thorough") { Tier::Thorough } else { Tier::Quick };
+            let (Some(shape), Some(index)) = (case["shape"].as_str(), case["index"].as_u64()) else { ctx.machinery_error("replay: shape/index missing".into()); return };
+            let before = ctx.evaluations;
+            values(ctx, tier, Some((shape, index as usize)));
+            if ctx.evaluations == before && ctx.machinery_errors.is_empty() { ctx.machinery_error(format!("replay: unknown shape {shape}")); return }
+            // the witness names the value; make sure the enumeration still puts the same value at that index
+            if let Some(v) = case["value"].as_str() {
+                let seen: Vec<String> = ctx.violations.values().flat_map(|s| s.witnesses.iter()).filter_map(|w| w["value"].as_str().map(|s| s.to_string())).collect();
+                if !seen.is_empty() && !seen.iter().any(|s| s == v) { ctx.machinery_error(format!("replay: the value at index {index} of shape {shape} is {seen:?}, the witness says {v}")); }
+            }
+        }
+        Some("text") => {
+            let Some(text) = case["text"].as_str().map(unesc) else { ctx.machinery_error("replay: no text".into()); return };
+            check_text(ctx, &text, case["target"].as_str(), case["route"].as_str());
+        }
+        _ => ctx.machinery_error("replay: unknown part".into()),
+    }
+}
